@@ -106,10 +106,15 @@ def tables_of(model):
     return [np.asarray(getattr(x, "values", x), dtype=float) for x in (o.water_flux, o.water_storage, o.crop_growth)]
 
 
-def run_partner(spec, comp, acc, base_res, cov, label):
-    """Run one composition; returns True if everything agreed."""
+def run_partner(spec, comp, acc, base_res, cov, label, model=None, peek=False):
+    """Run one composition; returns the model (so that the next composition can re-use the
+    object: a terminated model re-initialised by its first call must behave like a fresh one)."""
     common.use_repo()
-    model = S.make_model(spec)
+    reused = model is not None
+    if model is None:
+        model = S.make_model(spec)
+    else:
+        cov["reused_model_objects"] += 1
     N = len(base_res.trace.steps)
     done = 0
     ok = True
@@ -126,9 +131,14 @@ def run_partner(spec, comp, acc, base_res, cov, label):
         cov["status_checks"] += 1
         fin = bool(model.get_additional_information()["has_model_finished"])
         resu = model.get_simulation_results()
+        if peek:
+            # a step-wise driver looks at the tables between calls; reading must not disturb them
+            for getter in (model.get_water_flux, model.get_water_storage, model.get_crop_growth):
+                getter()
+            cov["peeks_between_calls"] += 1
         want = done >= N
         if fin != want or (resu is False) == want:
-            acc.add("completion-status", f"composition {list(comp)[:12]}: after call {i + 1} ({done} of {N} steps "
+            acc.add("completion-status", f"composition {list(comp)[:12]}{' on a re-used model object' if reused else ''}: after call {i + 1} ({done} of {N} steps "
                     f"requested) has_model_finished={fin}, results {'withheld' if resu is False else 'returned'}; "
                     f"expected {'finished' if want else 'unfinished'}",
                     dict(composition=list(comp)[:40], call=i + 1, done=done, N=N))
@@ -153,7 +163,7 @@ def run_partner(spec, comp, acc, base_res, cov, label):
         acc.add("summary-differs", f"composition {list(comp)[:12]}: seasonal summary differs from the uninterrupted run",
                 dict(composition=list(comp)[:40]))
         ok = False
-    return ok
+    return model
 
 
 def run_case(case):
@@ -190,6 +200,7 @@ def run_case(case):
             comps.append(tuple(parts))
         cov["random_compositions"] += len(comps)
     n2 = 0
+    prev_model = None
     for comp in comps:
         cov["compositions"] += 1
         cov["executions"] += 1
@@ -197,7 +208,11 @@ def run_case(case):
             cov["crossing_season_start"] += 1
         if len(comp) >= 2:
             n2 += 1
-        run_partner(spec, comp, acc, B, cov, case["mode"])
+        j = cov["compositions"]
+        # every third composition re-uses the (terminated) model object of the previous one;
+        # every second one reads the daily tables between calls
+        prev_model = run_partner(spec, comp, acc, B, cov, case["mode"],
+                                 model=(prev_model if j % 3 == 0 else None), peek=(j % 2 == 0))
     out = base.finish(spec, B, acc, n2 > 0, instruments=("step",),
                       sample_extra={"steps_to_termination": N, "mode": case["mode"],
                                     "compositions": [list(c)[:10] for c in comps[:3]]})
